@@ -555,6 +555,9 @@ int32_t jls_core_rd_chunk_end(struct jls_core_s * self) {
                 }
             }
         }
+        if (0 == pos) {
+            break;  // the window started at the beginning of the file: nothing left to scan
+        }
         end_pos = pos + sizeof(struct jls_chunk_header_s) - sizeof(uint64_t);
     }
     return JLS_ERROR_NOT_FOUND;
